@@ -1,2 +1,72 @@
-(* C01 — placeholder until the fix-point theorem lands (see C01 in DESIGN.md). *)
-From HG Require Import Base Engine.
+(* C01 — acyclic dataflow: every output equals the dependency-order evaluation. *)
+From HG Require Import Base Engine Exec EngineProofs C01Proofs Samples.
+From stdpp Require Import gmap.
+
+(* The declarative spec is `Sol`: the dataflow equations of the graph
+     - every run-time value is present;
+     - a node whose inputs are all available (from an upstream output, a run-time value, a bound
+       value or a default, in this order of precedence) has its function's outputs present;
+     - nothing else is present: every value is a run-time value or the output of such a node.
+   For an acyclic gate-free graph with unique outputs it has EXACTLY ONE solution (C01_unique):
+   the dependency-order evaluation. *)
+
+Theorem C01_unique : forall exec g pv, WF exec g pv ->
+  forall V1 V2, Sol exec g pv V1 -> Sol exec g pv V2 -> V1 = V2.
+Proof. exact Sol_unique. Qed.
+Print Assumptions C01_unique.
+
+(* Every COMPLETED run, under either runner, any node-list order and any budget, ends in that
+   solution.  (Partial correctness: that a DAG completes within max_iterations supersteps is
+   not part of this theorem; a run that does not is reported as InfiniteLoopError, C04.) *)
+Theorem C01_values_partial : forall exec g pv, WF exec g pv -> List.NoDup (dkeys pv) ->
+  forall r fuel st log, execute exec r fuel g pv = (RDone st, log) -> Sol exec g pv (vals st).
+Proof. exact run_reaches_solution. Qed.
+Print Assumptions C01_values_partial.
+
+Theorem C01_runner_independent : forall exec g pv, WF exec g pv -> List.NoDup (dkeys pv) ->
+  forall r1 r2 f1 f2 s1 s2 l1 l2,
+  execute exec r1 f1 g pv = (RDone s1, l1) -> execute exec r2 f2 g pv = (RDone s2, l2) -> vals s1 = vals s2.
+Proof. exact run_values_unique. Qed.
+Print Assumptions C01_runner_independent.
+
+(* A node has run iff its inputs can be satisfied in the final valuation; one that cannot be
+   satisfied never ran (and, by sol_prov, contributes no value). *)
+Theorem C01_runs_iff_satisfiable : forall exec g pv, WF exec g pv -> List.NoDup (dkeys pv) ->
+  forall r fuel st log n, execute exec r fuel g pv = (RDone st, log) -> In n (g_nodes g) ->
+  (execs st !! n_name n <> None <-> avail g (vals st) n).
+Proof. exact run_node_iff. Qed.
+Print Assumptions C01_runs_iff_satisfiable.
+
+(* Non-vacuity: the diamond DAG of Samples.v is well-formed, completes, and its final values
+   are the nested terms of the dependency-order evaluation. *)
+Example C01_nonvacuous_run :
+  let r := run_basic dag_ft [] Sync 10 dag [(1%positive, VInt 5)] None in
+  res_status r = 0 /\
+  dget (res_values r) 34 = Some (VTup [VStr 14; VTup [VStr 11; VTup [VStr 10; VInt 5]];
+                                               VTup [VStr 12; VTup [VStr 10; VInt 5]]]).
+Proof. vm_compute. split; reflexivity. Qed.
+
+Example C01_nonvacuous_wf : WF (exec_basic dag_ft []) dag [(1%positive, VInt 5)].
+Proof.
+  assert (Hn : forall n, In n (g_nodes dag) ->
+            (n = fnode 14 [32; 33] [34] 4 \/ n = fnode 11 [31] [32] 2 \/ n = fnode 10 [1] [31] 1 \/ n = fnode 12 [31] [33] 3)%positive).
+  { simpl. intuition. }
+  split.
+  - intros n H. destruct (Hn n H) as [-> | [-> | [-> | ->]]]; split; reflexivity.
+  - reflexivity.
+  - repeat constructor; simpl; intuition congruence.
+  - repeat constructor; simpl; intuition congruence.
+  - exists (fun x : positive => match x with 10%positive => 0 | 11%positive => 1 | 12%positive => 1 | _ => 2 end).
+    intros n m p Hi Hm Hp Ho.
+    destruct (Hn n Hi) as [-> | [-> | [-> | ->]]]; destruct (Hn m Hm) as [-> | [-> | [-> | ->]]];
+      simpl in *; intuition (try congruence; try lia); subst; simpl in *; intuition (try congruence; try lia).
+  - intros x Hx. unfold dmem in Hx. simpl in Hx. destruct (Pos.eqb 1 x) eqn:E; [|discriminate].
+    apply Pos.eqb_eq in E. subst. simpl. intuition congruence.
+  - intros n p H. destruct (Hn n H) as [-> | [-> | [-> | ->]]]; reflexivity.
+  - reflexivity.
+  - intros n s ins outs dec H He. destruct (Hn n H) as [-> | [-> | [-> | ->]]]; vm_compute in He;
+      injection He as <- <-; split; reflexivity.
+  - intros n s ins p. unfold exec_basic. destruct (dget dag_ft (n_fn n)); [|discriminate].
+    destruct (n_kind n); try discriminate.
+    destruct (eval_fexp f (n_ndata n) ins); try discriminate. destruct (wrap_outputs n v); discriminate.
+Qed.
